@@ -24,7 +24,12 @@ static const char* ONAME[] = {"tag", "[1]", "[_", "{k", "{v", "{_k", "{_v"};
 static uint8_t* buf;
 static size_t bufcap;
 
-static size_t build_input(const uint8_t* seq, size_t depth, int innermost /*0 int, 1 chunked bytes, 2 chunked text*/) {
+/* innermost item: 0 integer, 1 chunked byte string, 2 chunked text string (both open one more level), 3 empty definite array, 4 empty definite map,
+ * 5 empty definite array with a one-byte count (none of these three is ever pushed: they need no free level), 6 empty indefinite array, 7 empty indefinite map
+ * (both open one more level) */
+#define N_INNER 8
+static const int INNER_LEVELS[N_INNER] = {0, 1, 1, 0, 0, 0, 1, 1};
+static size_t build_input(const uint8_t* seq, size_t depth, int innermost) {
   size_t need = depth * 4 + 16;
   if (need > bufcap) { bufcap = need * 2; buf = realloc(buf, bufcap); }
   size_t o = 0;
@@ -39,8 +44,15 @@ static size_t build_input(const uint8_t* seq, size_t depth, int innermost /*0 in
       default: buf[o++] = 0xbf; buf[o++] = 0x00;
     }
   }
-  if (innermost == 0) buf[o++] = 0x05;
-  else { buf[o++] = innermost == 1 ? 0x5f : 0x7f; buf[o++] = innermost == 1 ? 0x41 : 0x61; buf[o++] = 'x'; buf[o++] = 0xff; }
+  switch (innermost) {
+    case 0: buf[o++] = 0x05; break;
+    case 1: case 2: buf[o++] = innermost == 1 ? 0x5f : 0x7f; buf[o++] = innermost == 1 ? 0x41 : 0x61; buf[o++] = 'x'; buf[o++] = 0xff; break;
+    case 3: buf[o++] = 0x80; break;
+    case 4: buf[o++] = 0xa0; break;
+    case 5: buf[o++] = 0x98; buf[o++] = 0x00; break;
+    case 6: buf[o++] = 0x9f; buf[o++] = 0xff; break;
+    default: buf[o++] = 0xbf; buf[o++] = 0xff;
+  }
   for (size_t i = depth; i-- > 0;) {
     switch (seq[i]) {
       case O_IARR: buf[o++] = 0xff; break;
@@ -54,10 +66,10 @@ static size_t build_input(const uint8_t* seq, size_t depth, int innermost /*0 in
 }
 
 /* pipeline on a dedicated thread with a painted stack */
-#define STK_SZ (16u << 20)
+#define STK_SZ ((size_t)((256u << 10) + 1024u * (size_t)CBOR_MAX_STACK_SIZE)) /* 4x the budget for the deepest accepted input; a guard page below */
 static unsigned char* stk_base;
 static struct job {
-  const uint8_t* in; size_t n;
+  const uint8_t* in; size_t n; size_t noncanon;
   bool accepted; int code; size_t pos, read;
   rnode* walked;
   bool pipeline_ok; char msg[200];
@@ -78,8 +90,8 @@ static void* pipeline(void* arg) {
     size_t sz = cbor_serialized_size(it);
     unsigned char* out = malloc(sz + 1);
     size_t w = cbor_serialize(it, out, sz);
-    if (w != sz || sz != J.n) { J.pipeline_ok = false; snprintf(J.msg, sizeof J.msg, "serialize wrote %zu, size %zu, input %zu", w, sz, J.n); }
-    else if (memcmp(out, J.in, sz)) { J.pipeline_ok = false; snprintf(J.msg, sizeof J.msg, "serialization differs from the (canonical) input"); }
+    if (w != sz || sz != J.n - J.noncanon) { J.pipeline_ok = false; snprintf(J.msg, sizeof J.msg, "serialize wrote %zu, size %zu, input %zu", w, sz, J.n); }
+    else if (!J.noncanon && memcmp(out, J.in, sz)) { J.pipeline_ok = false; snprintf(J.msg, sizeof J.msg, "serialization differs from the (canonical) input"); }
     free(out);
     cbor_item_t* c = cbor_copy(it);
     if (!c) { J.pipeline_ok = false; snprintf(J.msg, sizeof J.msg, "cbor_copy failed"); }
@@ -127,7 +139,7 @@ static void judge(const uint8_t* seq, size_t depth, int innermost, bool distinct
   vf_cnt(VC_EVAL, 1);
   vf_cnt(VC_TRACES, 1);
   if (distinct) vf_cnt(VC_DISTINCT, 1);
-  size_t levels = depth + (innermost ? 1 : 0);
+  size_t levels = depth + (size_t)INNER_LEVELS[innermost];
   rdecode rd;
   ref_arena_reset();
   ref_decode(buf, n, L_CFG, 1ull << 30, NULL, &rd);
@@ -140,6 +152,7 @@ static void judge(const uint8_t* seq, size_t depth, int innermost, bool distinct
   memcpy(in, buf, n);
   J.in = in;
   J.n = n;
+  J.noncanon = innermost == 5 ? 1 : 0; /* 98 00 re-serializes as 80 */
   size_t used = run_on_painted_stack();
   vf_cnt(K_STACK_MEASURED, 1);
   /* second, unmeasured pass on the main thread: walk the tree for the comparison (the walker's own recursion must not count) */
@@ -151,7 +164,7 @@ static void judge(const uint8_t* seq, size_t depth, int innermost, bool distinct
     if (again) J.walked = vf_walk(again);
   }
   if ((levels == L_CFG || levels == L_CFG + 1) && (vf_cnt_get_local(VC_EVAL) & 0xff) == 7)
-    vf_sample("L=%zu: %zu levels (outermost opener %s, innermost %s) -> %s%s, native stack %zu bytes", L_CFG, levels, ONAME[seq[0]], innermost ? "chunked string" : "integer", J.accepted ? "accepted" : "rejected with code ",
+    vf_sample("L=%zu: %zu levels (outermost opener %s, innermost %s) -> %s%s, native stack %zu bytes", L_CFG, levels, ONAME[seq[0]], innermost == 0 ? "integer" : innermost <= 2 ? "chunked string" : innermost <= 5 ? "empty definite container" : "empty indefinite container", J.accepted ? "accepted" : "rejected with code ",
               J.accepted ? "" : (J.code == 4 ? "MEMERROR" : "?"), used);
   if (levels == L_CFG) vf_cnt(K_AT_LIMIT, 1);
   if (levels == L_CFG + 1) vf_cnt(K_OVER_LIMIT, 1);
@@ -208,7 +221,7 @@ static void full_unit(unsigned first) {
       uint64_t rr = r;
       for (unsigned i = 1; i < depth; i++) { seq[i] = (uint8_t)(rr % O_NOPEN); rr /= O_NOPEN; }
       vf_cnt(K_FULLSEQ, 1);
-      for (int inner = 0; inner < 3; inner++) judge(seq, depth, inner, true);
+      for (int inner = 0; inner < N_INNER; inner++) judge(seq, depth, inner, true);
     }
   }
 }
@@ -222,10 +235,10 @@ static void pattern_unit(unsigned p) {
     uint8_t* seq = malloc(depth);
     for (size_t i = 0; i < depth; i++) seq[i] = (uint8_t)((i & 1) && b < O_NOPEN ? b : a);
     vf_cnt(K_PATTERNS, 1);
-    for (int inner = 0; inner < 3; inner++) {
-      /* the chunked string is the innermost level: judge it also one level shallower so that it lands exactly on the limit */
+    for (int inner = 0; inner < N_INNER; inner++) {
+      /* an innermost item that opens a level of its own is also judged one level shallower so that it lands exactly on the limit */
       judge(seq, depth, inner, true);
-      if (inner && depth > 1) judge(seq, depth - 1, inner, true);
+      if (INNER_LEVELS[inner] && depth > 1) judge(seq, depth - 1, inner, true);
     }
     free(seq);
   }
@@ -249,7 +262,7 @@ static void init(void) {
   vf_extra("configured_L", "%zu (from the cmake-generated configuration.h of this build)", L_CFG);
   vf_extra("full_sequences_to_depth", "%u", full_maxdepth);
 #ifdef VF_STACK_BUDGET
-  vf_extra("stack_budget", "16384 + 256 * depth bytes, measured on a painted 16 MiB pthread stack with a guard page");
+  vf_extra("stack_budget", "16384 + 256 * depth bytes, measured on a painted pthread stack (256 KiB + 1 KiB per configured level) with a guard page");
 #else
   vf_extra("stack_budget", "not judged in this (sanitizer) build; stack exhaustion would still hit the guard page");
 #endif
@@ -274,14 +287,14 @@ struct vf_check vf_the_check = {
     .level = "model_checking",
     .rule = "one build per configured L (cmake -DCBOR_MAX_STACK_SIZE=L, generated configuration.h). Inputs: every sequence of container openers {tag, definite array, indefinite array, definite map in "
             "key / value position, indefinite map in key / value position} up to depth L+1 (small L; depth 3-4 otherwise) and all 56 opener patterns of period <= 2 at depths L-1, L, L+1 and 4L, "
-            "each with an integer, a chunked byte string or a chunked text string innermost, completed to a well-formed item. Oracle: the reference pushdown run with the same L (accept and equal tree / "
+            "each with one of 8 innermost items (integer; chunked byte / text string; empty definite array / map in two head widths, which need no free level; empty indefinite array / map, which open one), completed to a well-formed item. Oracle: the reference pushdown run with the same L (accept and equal tree / "
             "MEMERROR just past the head that opens level L+1); the load-describe-size-serialize-copy-release pipeline runs on a thread with a painted stack whose high-water mark is measured. "
             "states = distinct (within limit, depth class, outer/inner opener) classes; transitions = heads consumed by the reference; distinct_nontrivial = distinct inputs",
     .bounds = {"L in {1, 2, 3, 8}", "L in {1, 2, 3, 8, 64, 2048}"},
     .assumptions = {"reference decoder parameterised by L (pinned by ./vf setup, which also checks its limit behaviour for L = 1..4)",
                     "stack budget (gcc -O2 builds only): 16 KiB + 256 B per nesting level for accepted inputs, 16 KiB + 256 B * L for rejected ones - about 3x the measured cost (48-82 B per level) so "
                     "that compiler variation does not raise alarms while anything super-linear or an extra frame per level does",
-                    "a guard page below the 16 MiB measuring stack turns exhaustion into a SIGSEGV attributed to the case"},
+                    "a guard page below the measuring stack turns exhaustion into a SIGSEGV attributed to the case"},
     .counters = {[VC_EVAL] = "inputs_judged", [VC_DISTINCT] = "distinct_inputs", [VC_TRANS] = "reference_heads_consumed", [VC_TRACES] = "executed_on_implementation",
                  [K_ACCEPTED] = "within_limit", [K_REJECTED] = "beyond_limit", [K_AT_LIMIT] = "exactly_at_limit", [K_OVER_LIMIT] = "one_level_over_limit", [K_DEEP4L] = "depth_4L_or_more",
                  [K_STACK_MEASURED] = "stack_measurements", [K_MAX_STACK] = "sum_over_workers_of_max_stack_bytes_accepted", [K_MAX_STACK_REJECT] = "sum_over_workers_of_max_stack_bytes_rejected",
